@@ -38,20 +38,22 @@ def run(chk):
     nseq = [0]
     samples = []
 
-    def finish(states, seq):
+    GUIDS = {'session_id': 'sid', 'request_id': 'rid'}
+
+    def finish(states, seq, plan=('session_id', 'request_id')):
         nseq[0] += 1
         for s in states:
             s2 = s.clone()
             s2.status = 'running'
             cur = [s2]
-            for nm, arg in (('session_id', Tree({}, 'sid', 'protocol::request::GUID')), ('request_id', Tree({}, 'rid', 'protocol::request::GUID'))):
+            for nm, arg in [(n_, Tree({}, GUIDS[n_], 'protocol::request::GUID')) for n_ in plan]:
                 nxt = []
                 for x in cur:
                     x.status = 'running'
                     nxt += ex.run_fn(fns[nm], [x.result, arg], x)
                 cur = nxt
             for x in cur:
-                if x.status != 'done':
+                if plan and x.status != 'done':
                     D.no_bad_status([x])
                     continue
                 x.status = 'running'
@@ -62,12 +64,16 @@ def run(chk):
                     if y.status != 'done':
                         D.no_bad_status([y])
                         continue
-                    check_built(ex, y, seq, before, D)
+                    check_built(ex, y, seq, before, D, plan)
                     if len(samples) < 5 and len(seq) == K:
                         samples.append({'ops': ['%s(app%d)' % o_ for o_ in seq], 'entries': spec_entries(ex, y, seq)[1]})
 
     def rec(states, seq):
         finish(states, seq)
+        if len(seq) <= 1:
+            # the id setters in the other order, alone, and not at all
+            for plan in (('request_id', 'session_id'), ('session_id',), ('request_id',), ()):
+                finish(states, seq, plan)
         if len(seq) >= K or D.failed:
             return
         for op in OPS:
@@ -109,7 +115,7 @@ def spec_entries(ex, st, seq):
         for e in entries:
             eq = dval(ex, st, ids[e[0]] == ids[a]) if e[0] != a else 1
             if eq is None:
-                return None, 'undecided'
+                return None, ids[e[0]] == ids[a]
             if eq == 1:
                 hit = e
                 break
@@ -125,14 +131,19 @@ def spec_entries(ex, st, seq):
     return entries, [(e[0], e[1], e[2], list(e[3])) for e in entries]
 
 
-def check_built(ex, st, seq, before, D):
+def check_built(ex, st, seq, before, D, plan=('session_id', 'request_id')):
     if D.failed:
         return
     def bad(msg):
         D.failed = D.failed or ('violated', '%s [ops %s]' % (msg, ['%s(app%d)' % o_ for o_ in seq]), None, st)
     entries, shown = spec_entries(ex, st, seq)
     if entries is None:
-        D.failed = D.failed or ('inconclusive', 'id comparison undecided', None, st)
+        # the code did not compare these two ids on this path: decide the property under either answer
+        for c in (shown, z3.Not(shown)):
+            if ex.check(st, [c]) == 'sat':
+                s2 = st.clone()
+                s2.pc.append(c)
+                check_built(ex, s2, seq, before, D, plan)
         return
     if not ex.veq(ex.load(st, 'b', []), before):
         return bad('building altered the builder')
@@ -176,8 +187,11 @@ def check_built(ex, st, seq, before, D):
         return bad('os block is not the configured one')
     for fld, nm in (('request_id', 'rid'), ('session_id', 'sid')):
         g = ex.child(st, req, fidx(ex, R, fld), None)
-        if dval(ex, st, ex.discr_of(st, g).t) != 1 or getattr(payload(ex, st, g, 1, 0, None), 'origin', None) != nm:
-            return bad('%s is not the one set on the builder' % fld)
+        if fld not in plan:
+            if dval(ex, st, ex.discr_of(st, g).t) != 0:
+                return bad('%s present although never set (setters called: %s)' % (fld, list(plan)))
+        elif dval(ex, st, ex.discr_of(st, g).t) != 1 or getattr(payload(ex, st, g, 1, 0, None), 'origin', None) != nm:
+            return bad('%s is not the one set on the builder (setters called: %s)' % (fld, list(plan)))
     apps = vec_items(ex, st, ex.child(st, req, fidx(ex, R, 'apps'), None))
     if len(apps) != len(entries):
         return bad('%d apps on the wire, expected %d (%s)' % (len(apps), len(entries), shown))
